@@ -1016,6 +1016,12 @@ func (c *EvalCtx) call(v *ECall) TV {
 				c.fail("%s: argument %d has sort %s, want %s", v.Fun, i+1, a[i].Sort, f.Params[i].Sort)
 			}
 		}
+		if rt, ok := c.prog.specFnRetType[v.Fun]; ok {
+			// only pointer results keep their Go type (so that fields can be selected); other results stay spec-level
+			if _, isPtr := rt.Underlying().(*types.Pointer); isPtr {
+				return c.typed(SymApp(v.Fun, f.Ret, a...), rt)
+			}
+		}
 		return tvTerm(SymApp(v.Fun, f.Ret, a...))
 	}
 	c.fail("unknown function %q", v.Fun)
